@@ -478,6 +478,16 @@ class AesMachine(lenrun.Machine):
                         self.viol.append((i, "the high half of the tweak is doubled with a carry flag that does not come from the shift of its low half (an instruction in between rewrote the flags): the bit that moves from the low to the high half is lost"))
                     self.tw_cf = None
                     wflags = False
+            elif (op.startswith("SHRD64rri") and (i.imm(len(i.ops) - 1) == 1)) or op == "SHR64r1" or (op == "SHR64ri" and i.imm(2) == 1):
+                # division by alpha in general registers (the previous tweak, for the stolen block when decrypting)
+                r = PARENT.get(i.reg(0))
+                if r in gt and gt[r] >= 1:
+                    new[r] = gt[r] - 1
+            elif op in ("XOR64ri8", "XOR64ri32", "AND64ri8", "AND64ri32", "OR64ri8", "OR64ri32") or op.startswith(("CMOV64rr", "NEG64r", "SAR64r", "SBB64rr")):
+                # the conditional reduction constant (xor 0x87 / mask built from the carry) leaves the exponent alone
+                r = PARENT.get(i.reg(0))
+                if r in gt and op.startswith(("XOR64ri", "AND64ri", "OR64ri")) and op.startswith("XOR64ri"):
+                    new[r] = gt[r]
             elif op == "XOR64rr" and i.reg(1) != i.reg(2):
                 r = PARENT.get(i.reg(0))
                 if r in gt and PARENT.get(i.reg(2)) not in gt:
@@ -487,8 +497,13 @@ class AesMachine(lenrun.Machine):
                     new[PARENT.get(i.reg(0))] = gt[PARENT.get(i.reg(1))]
         if wflags:
             self.tw_cf = None
+        uses_ = {PARENT.get(u) for u in i.reg_uses_nomem() if u in PARENT}
         for d in defs:
             if d in gt and d not in new:
+                if d in uses_ and not op.startswith(("MOV", "CMP", "TEST")):
+                    # a tweak half is transformed by an instruction this engine has no rule for: whatever is derived
+                    # from it is not judged (no verdict rather than a wrong one)
+                    self.tw_unmodelled = self.__dict__.get("tw_unmodelled", 0) + 1
                 del gt[d]
         gt.update(new)
         return False
@@ -581,6 +596,8 @@ def judge_tweaks(m, L, decrypt):
     store that starts at 16(m-1)+r) the other one.  Only the last store to each position counts (the VAES bodies
     write position m-1 twice).  Presence only.  Returns (ins, message) or None, judged count."""
     nblk, r = L // 16, L % 16
+    if m.__dict__.get("tw_unmodelled"):
+        return None, 0
     final = {}
     for (i, off, size, lanes, masked) in m.out_stores:
         if size < 16 or masked:
